@@ -120,6 +120,7 @@ def main(argv=None):
             env = dict(os.environ)
             env["PYTHONPATH"] = common.VERIF + os.pathsep + env.get("PYTHONPATH", "")
             env["PYTHONHASHSEED"] = env.get("PYTHONHASHSEED", "0")
+            env["BVF_SCRATCH_BASE"] = scratch      # shard scratch dirs live (and die) inside the parent's
             p = subprocess.Popen(cmd, cwd=common.VERIF, env=env, stdout=open(logp, "w"), stderr=subprocess.STDOUT)
             running[i] = (p, part)
             deadline[i] = time.time() + timeout
